@@ -1,5 +1,16 @@
 package c03
 
-import "verif/harness/pbt"
+import (
+	"encoding/json"
 
-func probes() pbt.Probes { return pbt.Probes{} }
+	"verif/harness/pbt"
+)
+
+func probes() pbt.Probes {
+	return pbt.KnownCaseProbes("known", func(part string, raw json.RawMessage) pbt.Verdict {
+		if part == canonPart.Name {
+			return canonPart.CheckRaw(raw)
+		}
+		return semPart.CheckRaw(raw)
+	})
+}
